@@ -225,7 +225,7 @@ func (cw *c07World) play(order []c07Token, proposers []int, lazy *sched.Rng) (ba
 				}
 			}
 			before := w.Board.Len()
-			if e := w.ProposeSign(proposers[tk.Batch-1], cw.ce.Round, map[string][]byte{fmt.Sprintf("doc-%d-a", tk.Batch): []byte(fmt.Sprintf("payload %d a", tk.Batch)), fmt.Sprintf("doc-%d-b", tk.Batch): []byte(fmt.Sprintf("payload %d b", tk.Batch))}, nil); e != nil {
+			if e := w.ProposeSign(proposers[tk.Batch-1], cw.ce.Round, c07BatchData(tk.Batch), nil); e != nil {
 				return batchIDs, expected, fmt.Errorf("proposal of batch %d refused: %w", tk.Batch, e)
 			}
 			prop := w.Board.All()[before]
@@ -512,4 +512,14 @@ func permutations(a []int) [][]int {
 		}
 	}
 	return out
+}
+
+// c07BatchData: two documents per batch; every second batch also carries an empty file (zero bytes are
+// a payload like any other and must come back signed).
+func c07BatchData(k int) map[string][]byte {
+	d := map[string][]byte{fmt.Sprintf("doc-%d-a", k): []byte(fmt.Sprintf("payload %d a", k)), fmt.Sprintf("doc-%d-b", k): []byte(fmt.Sprintf("payload %d b", k))}
+	if k%2 == 0 {
+		d[fmt.Sprintf("doc-%d-empty", k)] = []byte{}
+	}
+	return d
 }
